@@ -180,7 +180,9 @@ def run_real(mode, inp, cl, buf, max_body, schedule=None, rng=None, kind='cl', e
         env['wsgi.input_terminated'] = True
     if mode == 'cl':
         if cl >= 0:
-            env['CONTENT_LENGTH'] = str(cl)
+            # the declared length as gateways hand it over: optional white space around the field value is not part of it
+            # (RFC 7230 3.2.4; http.client.parse_headers keeps trailing blanks), leading zeros are legal digits
+            env['CONTENT_LENGTH'] = ['%d', '%d', '%d', '%d ', ' %d', '\t%d', '0%d', '%d\t '][(len(inp) * 5 + cl + buf) % 8] % cl
     else:
         # transfer-coding names are case-insensitive; chunked is the last coding
         env['HTTP_TRANSFER_ENCODING'] = ['chunked', 'chunked', 'Chunked', 'CHUNKED', 'gzip, chunked', 'identity,Chunked', 'chunked '][(len(inp) + cl + buf) % 7]
